@@ -95,7 +95,7 @@ def build(stream, p):
     if stream == "lmap":
         def run():
             m = dsw.accessor_to_latter_map(gen.acc_array(rows, reuse=len(rows) % 3 == 1))
-            back = dsw.latter_map_to_accessor(gen.lmap_dict(rows, reuse=True) if k % 2 else m, observed_length=k)
+            back = gen.api("latter_map_to_accessor", latter_map=gen.lmap_dict(rows, reuse=True) if k % 2 else m, observed_length=k)
             return m, back
         call = enc_call(46, gen.enc_acc(rows), k)
         impl = lambda: guard(run, lambda r: [gen.enc_lmap({int(a): [int(x) for x in b] for a, b in sorted(r[0].items())}),
@@ -128,7 +128,7 @@ def build(stream, p):
         def run():
             # long-lived argument objects, refilled in place: answers must follow the current content
             reuse = (v + d) % 2 == 0
-            a = dsw.obtain_leaf_vertices(v, d, accessor=gen.acc_array(rows, reuse=reuse))
+            a = gen.api("obtain_leaf_vertices", vertex_index=v, depth=d, accessor=gen.acc_array(rows, reuse=reuse))
             b = dsw.obtain_leaf_vertices(v, d, latter_map=gen.lmap_dict(rows, reuse=reuse))
             return a, b
         call = enc_call(47, gen.enc_acc(rows), v, d)
@@ -147,7 +147,7 @@ def build(stream, p):
         return Case(stream, p, call, impl, oracle, nontrivial=nt and d > 0, tags=tags + ["depth=%d" % d])
     if stream == "matrix":
         def run():
-            m = dsw.accessor_to_adjacency_matrix(arr)
+            m = gen.api("accessor_to_adjacency_matrix", accessor=arr)
             return m, dsw.adjacency_matrix_to_accessor(m)
         call = enc_call(48, gen.enc_acc(rows))
         impl = lambda: guard(run, lambda r: [[int(x) for x in r[0].reshape(-1)], [int(x) for x in r[1].reshape(-1)]])
